@@ -52,6 +52,15 @@ Theorem C50_status_range : forall fs root meth name ae def compress,
 Proof. exact serve_status_range. Qed.
 Print Assumptions C50_status_range.
 
+(* The executable property predicate evaluated by the harness on the implementation (prop_C50 in run/RunC50.v:
+   200 => bytes and length of a file under the root; other methods => 405; non-200 => no body/length; a plain
+   path (no empty, dot, dot-dot, NUL or over-long element) naming an existing file serves exactly that file, and
+   naming nothing yields 404 when no default file is configured) holds of the model on EVERY decodable input:
+   all methods, paths, Accept-Encoding values, default files, settings and file systems. *)
+Theorem C50_prop_of_model : forall i, dec_input i <> None -> prop_C50 i (run_C50 i) = true.
+Proof. exact prop_C50_of_model. Qed.
+Print Assumptions C50_prop_of_model.
+
 (* Non-vacuity: root /w with a.txt inside and a sentinel /s outside; "/../s" is answered 404,
    "/x/../a.txt" serves the file inside. *)
 Example C50_example :
